@@ -123,7 +123,8 @@ func processBlock(exp Exporter) {
 	switch b := b.(type) {
 	case *ast.Macro:
 		m, ok := ctx.uMacros[b.Name]
-		if ok {
+		if ok && !ctx.Inline {
+			// Sm, Bm and Em in macro arguments always are the builtin ones
 			processUserMacro(exp, m)
 			return
 		}
